@@ -83,6 +83,7 @@ class PinWorld:
         self.switch_busy_until = {}
         self.ambiguous_reentries = 0
         self.ambiguous_devs = set()
+        self.waiting_for_jam_clear = set()   # devices whose shaken balls settle only once the jam ball has left
         self.uncountable_devs = set()   # devices whose count MPF cannot get right for a sensing reason (see _enter)
         self.reentry_at_timeout = 0
         self.exact_late_arrivals = 0
@@ -164,7 +165,8 @@ class PinWorld:
             # a weak pulse that only shakes the balls: nothing leaves; balls lying between their switches may settle
             self.ctx.log("coil", info.name, "reorder", t=rec["t"])
             self.ctx.probe("reorder_pulse")
-            if any(b.kind == "dev" and b.dev == info.name and b.switch is None for b in self.balls) and \
+            if info.name not in self.waiting_for_jam_clear and \
+                    any(b.kind == "dev" and b.dev == info.name and b.switch is None for b in self.balls) and \
                     self.rt.flag("reorder_helps", 0.5):
                 self._later(0.3, self._settle, info)
             return
@@ -241,6 +243,9 @@ class PinWorld:
                    self.sim.now - o.since <= tinfo.entrance_count_delay + 0.1 for o in self.balls):
                 ball.ambiguous = True
                 self.ctx.probe("arrival_ambiguity")
+        if info.name in self.waiting_for_jam_clear and sw is info.jam_switch and outcome != "shake":
+            self.waiting_for_jam_clear.discard(info.name)
+            self._later(0.3, self._settle, info)
         for e in reversed(self.eject_log):
             if e["ball"] == ball.id and e["dev"] == info.name:
                 if e.get("replunge"):
@@ -271,7 +276,12 @@ class PinWorld:
                     o.switch = None
             self.ctx.probe("balls_shaken_off_switches")
             self._later(min(0.3, info.eject_timeout * 0.8), self._arrive, ball, info.name, True)
-            self._later(self.rt.pick("settle_after", [1.0, 4.0, 9.0, 0.6]), self._settle, info)
+            if self.rt.flag("rests_on_jam_ball", 0.4):
+                # the next ball rests on top of the jammed one: it cannot reach its switch before the jam ball is gone
+                self.ctx.probe("ball_rests_on_jammed_ball")
+                self.waiting_for_jam_clear.add(info.name)
+            else:
+                self._later(self.rt.pick("settle_after", [1.0, 4.0, 9.0, 0.6]), self._settle, info)
             return
         if outcome == "fallback":
             ball.dst = info.name
@@ -340,6 +350,17 @@ class PinWorld:
                 if other.src != ball.src and not other.ambiguous:
                     self.ctx.probe("arrival_ambiguity")
                 other.ambiguous = True
+            elif other is not ball and other.kind == "transit" and not fell_back and other.dst == other.src \
+                    and other.src in self.devs and self.devs[other.src].target.name == dstname and dstname in self.devs \
+                    and other.src != ball.src:
+                # a ball from elsewhere (e.g. rolling back from the playfield) reaches the target while the source's own
+                # ball is dropping back into the source: the arrival confirms that eject; the source's count is then one
+                # short of what it physically holds and the newcomer is still booked on the playfield
+                if not other.ambiguous:
+                    self.ctx.probe("arrival_ambiguity")
+                    self.ambiguous_reentries += 1
+                    self.uncountable_devs.add(other.src)
+                other.ambiguous = True
             elif other is not ball and other.kind == "transit" and not fell_back and ball.src is not None \
                     and other.src == ball.src and other.dst == other.src and dstname in self.devs:
                 # a (late) ball of an earlier eject of the same source arrives at the target while the source's current
@@ -347,6 +368,22 @@ class PinWorld:
                 if not other.ambiguous:
                     self.ctx.probe("arrival_ambiguity")
                 other.ambiguous = True
+        if dstname in self.devs and not fell_back:
+            # a ball from elsewhere reaches a device while the latest eject of one of that device's sources has physically
+            # failed (its ball dropped back, got stuck or was shaken off) and is still unconfirmed: the newcomer confirms
+            # that eject; the source's count is then one short and the newcomer stays booked where it came from
+            for sinfo in self.devs.values():
+                if sinfo.target.name != dstname or sinfo.name == ball.src:
+                    continue
+                for e in reversed(self.eject_log):
+                    if e["dev"] != sinfo.name:
+                        continue
+                    if e["ball"] is not None and e["outcome"] in ("shake", "fallback", "stuck") \
+                            and self.sim.now - e["t"] <= sinfo.eject_timeout + 0.6:
+                        self.ambiguous_reentries += 1
+                        self.uncountable_devs.add(sinfo.name)
+                        self.ctx.probe("arrival_ambiguity")
+                    break
         if dstname in self.devs:
             self._enter(ball, self.devs[dstname], fell_back)
         else:
